@@ -180,6 +180,14 @@ def run(ctx):
     for ns, wo, go, eo in (nested if not ctx.quick() else rng.sample(nested, 20)):
         cases.append(make_case(cm.G('seq', [cm.G('seq', [cm.W(ns, wo)], go), cm.E('b', eo)], (1, 1)), '1.1'))
         cases.append(make_case(cm.G('seq', [cm.E('c', (0, 1)), cm.G('seq', [cm.G('choice', [cm.W(ns, wo), cm.E('d')], (1, 1))], go), cm.E('b', eo)], (1, 1)), '1.1'))
+    # XSD 1.1: a wildcard next to the head of a substitution group; a member of the group is attributed to the head's particle
+    heads = [(k, wfirst, wo, ho, ns) for k in ('seq', 'all') for wfirst in (True, False) for wo in [(0, 1), (0, None), (0, 2)]
+             for ho in [(1, 1), (2, 2), (0, 1), (1, 2)] for ns in ('##any', '##targetNamespace')]
+    for k, wfirst, wo, ho, ns in (heads if not ctx.quick() else rng.sample(heads, 30)):
+        if k == 'all' and (ho[1] or 0) > 1:
+            continue
+        ps = [cm.W(ns, wo), cm.E('h', ho)] if wfirst else [cm.E('h', ho), cm.W(ns, wo)]
+        cases.append(make_case(cm.G(k, ps, (1, 1)), '1.1'))
     nopen = 40 if ctx.quick() else 400
     for i in range(nopen):
         m = cm.random_model(rng, version='1.1', max_leaves=4, p_wild=0.0, allow_all=False)
